@@ -736,6 +736,24 @@ func (se *specEnv) call(n *ast.CallExpr) specVal {
 			}
 			pos := se.evalInt(n.Args[1])
 			return specVal{V: se.x.wordOf(arr, pos, 8), T: types.Typ[types.Uint64]}
+		case "gword32":
+			arr, ok := se.rval(se.eval(n.Args[0])).(Term)
+			if !ok {
+				se.fail("gword32() needs a ghost array")
+			}
+			return specVal{V: se.x.wordOf(arr, se.evalInt(n.Args[1]), 4), T: types.Typ[types.Uint32]}
+		case "word32at":
+			a := se.eval(n.Args[0])
+			sv, ok := se.rval(a).(*SliceV)
+			if !ok {
+				se.fail("word32at() needs a byte slice")
+			}
+			pos := se.evalInt(n.Args[1])
+			return specVal{V: se.x.wordAt(se.st, &SliceV{Arr: sv.Arr, Off: Zero, Len: sv.Len, Cap: sv.Cap}, pos, 4), T: types.Typ[types.Uint32]}
+		case "strbyte":
+			se.x.ctx.declareFun("strbyte", []Sort{SInt, SInt}, SInt)
+			sT := se.rval(se.eval(n.Args[0])).(Term)
+			return specVal{V: app(SInt, "strbyte", sT, se.evalInt(n.Args[1])), T: types.Typ[types.Uint8]}
 		case "base":
 			// absolute index of the slice's first element in its backing array
 			sv, ok := se.rval(se.eval(n.Args[0])).(*SliceV)
